@@ -246,3 +246,54 @@ def nonmutator_calls(seed, n):
         lines = [call(2) for _ in range(r.randrange(1, 4))]
         out.append({'names': [names], 'host': {}, 'calls': [{'src': '\n'.join(lines), 'n': 0, 'max': 600}]})
     return out
+
+
+# ---- C14: container operation sequences -------------------------------------------------------
+C14_KEYS = ['0', '1', '1.0', '1.7', '-1', '-1.5', '5', '"1"', '"a"', 'True', 'None']
+C14_VALS = ['7', '"z"']
+
+
+def c14_op_src(o):
+    c = o['c']
+    k = C14_KEYS[o['k'] - 1]
+    v = C14_VALS[o['v'] - 1]
+    f = o['f']
+    return {'read': '%s[%s]' % (c, k), 'write': '%s[%s] = %s' % (c, k, v), 'plus': '%s[%s] += %s' % (c, k, v), 'del': 'del %s[%s]' % (c, k),
+            'get': 'get(%s, %s)' % (c, k), 'getd': 'get(%s, %s, %s)' % (c, k, v), 'in': '(%s in %s)' % (k, c),
+            'insert': 'insert(%s, %s, %s)' % (c, k, v), 'push': 'push(%s, %s)' % (c, v), 'remove': 'remove(%s, %s)' % (c, v),
+            'index_of': 'index_of(%s, %s)' % (c, v), 'pop': 'pop(%s)' % c, 'popi': 'pop(%s, %s)' % (c, k)}.get(f, '%s(%s)' % (f, c))
+
+
+def c14_all_ops():
+    ops = []
+    for c in 'LD':
+        for k in range(1, 12):
+            for f in ('read', 'del', 'get', 'in'):
+                ops.append({'f': f, 'c': c, 'k': k, 'v': 1})
+            for f in ('write', 'plus', 'getd', 'insert'):
+                for v in (1, 2):
+                    ops.append({'f': f, 'c': c, 'k': k, 'v': v})
+        for f in ('push', 'remove', 'index_of'):
+            for v in (1, 2):
+                ops.append({'f': f, 'c': c, 'k': 1, 'v': v})
+        for f in ('pop', 'len', 'keys', 'values', 'items'):
+            ops.append({'f': f, 'c': c, 'k': 1, 'v': 1})
+    for k in range(1, 12):
+        ops.append({'f': 'popi', 'c': 'L', 'k': k, 'v': 1})
+    return ops
+
+
+def c14_scenario(ops):
+    """One eval call per operation on a persistent names mapping (a failing operation does not end
+    the sequence), preceded by the call that creates L and D; each call reads L and D at the end."""
+    calls = [{'src': 'L = [1, 2]\nD = {"1": 3}', 'n': 0, 'max': 100}]
+    for o in ops:
+        calls.append({'src': c14_op_src(o), 'n': 0, 'max': 100})
+    calls.append({'src': '[L, D, len(L), len(D), keys(D), values(D), items(D)]', 'n': 0, 'max': 100})
+    return {'names': [{}], 'host': {}, 'calls': calls}
+
+
+def c14_random(seed, n, maxlen=12):
+    r = random.Random(seed)
+    ops = c14_all_ops()
+    return [c14_scenario([r.choice(ops) for _ in range(r.randrange(3, maxlen + 1))]) for _ in range(n)]
